@@ -183,7 +183,7 @@ fn lockstep(mode: u8, cap: usize, nstable: u64, rng: &mut Rng, out: &mut Outcome
         if writer.is_done() {
             break;
         }
-        match writer.wait_frozen_or_done(20_000) {
+        match writer.wait_frozen_or_done(40_000) {
             Ok(true) => {
                 stops += 1;
                 if created_during < 4 && rng.chance(1, 3) {
@@ -197,7 +197,7 @@ fn lockstep(mode: u8, cap: usize, nstable: u64, rng: &mut Rng, out: &mut Outcome
             Err(e) => return Err(format!("INCONCLUSIVE {e}")),
         }
     }
-    writer.wait_done(20_000).map_err(|e| format!("INCONCLUSIVE {e}"))?;
+    writer.wait_done(40_000).map_err(|e| format!("INCONCLUSIVE {e}"))?;
     writer.join()?;
     its.push(Running::new(&map, &guard, 0, "after the resizes"));
     for it in its.iter_mut() {
@@ -302,7 +302,7 @@ fn tree_last_node(out: &mut Outcome) -> Result<(), String> {
         let g = m.guard();
         m.insert(TKey::new(8, 0), TVal::new(val_of(8, 0)), &g);
     });
-    if !t1.wait_frozen_or_done(10_000).map_err(|e| format!("INCONCLUSIVE {e}"))? {
+    if !t1.wait_frozen_or_done(30_000).map_err(|e| format!("INCONCLUSIVE {e}"))? {
         return Err("INCONCLUSIVE the ninth insert into one bin did not reach the treeify step".into());
     }
     {
@@ -312,7 +312,7 @@ fn tree_last_node(out: &mut Outcome) -> Result<(), String> {
         }
     }
     t1.gate.release();
-    t1.wait_done(10_000).map_err(|e| format!("INCONCLUSIVE {e}"))?;
+    t1.wait_done(30_000).map_err(|e| format!("INCONCLUSIVE {e}"))?;
     t1.join()?;
     let one_node_tree = {
         let g = map.guard();
@@ -329,7 +329,7 @@ fn tree_last_node(out: &mut Outcome) -> Result<(), String> {
         let g = m.guard();
         m.remove(&KQ(0), &g);
     });
-    let stopped = t2.wait_frozen_or_done(10_000).map_err(|e| format!("INCONCLUSIVE {e}"))?;
+    let stopped = t2.wait_frozen_or_done(30_000).map_err(|e| format!("INCONCLUSIVE {e}"))?;
     out.add("remover_stopped_with_empty_tree_bin", stopped as u64);
     eprintln!("[fv] c07/tree-last-node: iterating and looking up while the last node of a one-node tree bin is being removed");
     let r = guarded(|| {
@@ -341,7 +341,7 @@ fn tree_last_node(out: &mut Outcome) -> Result<(), String> {
         (n_iter, n_keys, n_vals, got)
     });
     t2.gate.release();
-    t2.wait_done(10_000).map_err(|e| format!("INCONCLUSIVE {e}"))?;
+    t2.wait_done(30_000).map_err(|e| format!("INCONCLUSIVE {e}"))?;
     t2.join()?;
     match r {
         Err(p) => Err(format!("iteration over a tree bin whose last node is being removed panicked: {p}")),
